@@ -31,9 +31,10 @@ import itertools
 import json
 import random
 
-from . import circ
+from . import circ, e2e
 from .c09 import bstr, code_val_to_json, ty_size
 from .common import Ctx, Result
+from .compiler_common import Unsupported, canon_gates, exprs_to_json
 
 LEVEL = "proof"
 
@@ -494,7 +495,9 @@ class Checker:
         self.quirks = sorted(self.active)
         self.reqs = []  # (request, callback(reply))
         self.stats = dict(programs=0, rejected=0, skipped_c01=0, skipped_c02=0, nonclassical=0,
-                          shared_qubit_pairs=0, no_output_qubits=0, roundtrips=0)
+                          shared_qubit_pairs=0, no_output_qubits=0, roundtrips=0,
+                          e2e_instances=0, e2e_in_class=0, e2e_covered=0, e2e_no_form=0, e2e_cache_hit=0,
+                          e2e_roundtrips_covered=0, e2e_by_kind={})
 
     def ask(self, req, cb):
         self.reqs.append((req, cb))
@@ -517,7 +520,8 @@ class Checker:
         pcase = dict(src=prog["src"])
         self.stats["programs"] += 1
         try:
-            qf = self.qlassf(prog["src"], to_compile=True)
+            with e2e.ChoiceLog() as chlog:  # ancilla choices of the real compilation (for the end-to-end coverage)
+                qf = self.qlassf(prog["src"], to_compile=True)
         except Exception as e:  # front end / compiler rejects: not this property's business
             self.stats["rejected"] += 1
             res.count(dict(pcase, rejected=True), nontrivial=False, bucket="rejected:" + prog["kind"])
@@ -604,6 +608,8 @@ class Checker:
         classical = all(circ.is_classical(g) or g["c"] in ("Barrier", "NopGate") for g in gates)
         if not classical:
             self.stats["nonclassical"] += 1
+        # ---- is this compiled function covered end to end by the Lean theorem C05_end_to_end_general?
+        rt_count = self.check_e2e(qf, prog, pcase, chlog, gates, nq, oq)
         fn = oracle_fn(prog)
         if n <= max_exh_bits:
             idxs, exhaustive = range(2 ** n), True
@@ -679,6 +685,7 @@ class Checker:
             reading = "".join("1" if st[q] else "0" for q in reversed(oq))
             readings[reading] = readings.get(reading, 0) + 1 + (idx % 3)
             self.stats["roundtrips"] += 1
+            rt_count[0] += 1
             try:
                 got = code_val_to_json(ret, qf.decode_output(reading))
             except Exception as e:  # noqa
@@ -731,6 +738,48 @@ class Checker:
             diff = {k: dict(before=qf_before[k], after=qf_after[k]) for k in qf_before if qf_before[k] != qf_after[k]}
             res.violation(pcase, "encode_input / decode_output / decode_counts changed the QlassF they were called on", code=diff)
         return exhaustive
+
+    def check_e2e(self, qf, prog, pcase, chlog, gates, nq, oq):
+        """`C05_end_to_end_general` speaks of the gate list the *compiler model* emits for a definition list of the
+        decidable class `inGeneralClass` over the bit names of the signature.  covered = the definition list the real
+        compiler got (`qf.expressions`) is in the class AND the model, run on the ancilla choices logged from the real
+        compilation (uncompute on: the default of `qlassf`), reproduces the circuit of this function: same gate list
+        (canonical form), same number of qubits, same `output_qubits`.  In the class but not reproduced = a
+        disagreement.  Returns the cell in which the caller counts the round trips evaluated on this circuit."""
+        res, st = self.res, self.stats
+        st["e2e_instances"] += 1
+        rt = [0]
+        by = st["e2e_by_kind"].setdefault(prog["kind"], [0, 0])
+        by[1] += 1
+        try:
+            ej = exprs_to_json(qf.expressions)
+        except Unsupported:
+            st["e2e_no_form"] += 1
+            return rt
+        choices = chlog.choices_of(qf._qcircuit)
+
+        def cb(rep):
+            if not rep.get("in_general"):
+                return
+            st["e2e_in_class"] += 1
+            if "error" not in rep and "gates" in rep:
+                mg, cg = canon_gates(rep["gates"]), canon_gates(gates)
+                if mg == cg and rep.get("num_qubits") == nq and rep.get("oq") == oq and not rep.get("choices_left"):
+                    st["e2e_covered"] += 1
+                    st["e2e_roundtrips_covered"] += rt[0]
+                    by[0] += 1
+                    if rep.get("cache_hit"):
+                        st["e2e_cache_hit"] += 1
+                    return
+                detail = dict(model=dict(gates=mg, num_qubits=rep.get("num_qubits"), oq=rep.get("oq"),
+                                         choices_left=rep.get("choices_left")),
+                              code=dict(gates=cg, num_qubits=nq, oq=oq))
+            else:
+                detail = dict(model=rep.get("error", "no gate list"), code=dict(num_qubits=nq, oq=oq, choices=choices))
+            res.disagree(pcase, "definition list is in the class inGeneralClass but the compiler model run on the logged "
+                         "ancilla choices does not reproduce the circuit of this function", **detail)
+        self.ask(dict(op="c05.e2e", args=prog["args"], ret=prog["ret"], exprs=ej, uncompute=True, choices=choices), cb)
+        return rt
 
     @staticmethod
     def qf_state(qf):
@@ -980,7 +1029,23 @@ def run(ctx: Ctx) -> Result:
     res.notes.append(f"round-trip mismatches attributed to the front end (C01): {ck.stats['skipped_c01']}, "
                      f"to the compiler (C02): {ck.stats['skipped_c02']} - counted and skipped, not reported here")
     res.assumptions.append("C05: what the circuit computes (C02) and what the expressions mean (C01) are hypotheses of "
-                           "C05_statement; the harness measures them on every case and skips cases they fail")
+                           "C05_statement; the harness measures them on every case and skips cases they fail; "
+                           "C05_end_to_end_general discharges the first for the compiler model on inGeneralClass")
+    st = ck.stats
+    res.extra["end_to_end"] = dict(covered=st["e2e_covered"], instances=st["e2e_instances"], in_class=st["e2e_in_class"],
+                                   no_form=st["e2e_no_form"], cache_hit=st["e2e_cache_hit"],
+                                   roundtrips_covered=st["e2e_roundtrips_covered"], roundtrips=st["roundtrips"],
+                                   by_kind=st["e2e_by_kind"])
+    res.notes.append(
+        f"{st['e2e_covered']} of {st['e2e_instances']} compiled functions evaluated ({st['e2e_roundtrips_covered']} of "
+        f"{st['roundtrips']} round trips through a real circuit) are covered end to end by the Lean theorem "
+        "C05_end_to_end_general: the definition list handed to the compiler lies in the decidable class inGeneralClass over the "
+        "bit names of the signature AND the compiler model, run on the ancilla choices logged from the real compilation "
+        "(uncompute on), emits exactly the circuit of this function (gate list in canonical form, number of qubits, "
+        f"output_qubits; a difference would be a disagreement); {st['e2e_in_class']} in the class, {st['e2e_cache_hit']} of the "
+        f"covered with a cache hit in the model run, {st['e2e_no_form']} with an expression outside the modelled forms; per "
+        "program kind covered/evaluated: " + ", ".join(f"{k}: {c}/{n}" for k, (c, n) in sorted(st["e2e_by_kind"].items()))
+        + "; for the other functions the circuit-side hypothesis (Computes) is measured per case, as before")
     res.notes.append("every encode_input / decode_output / decode_counts call of the run is made twice on the same argument "
                      "objects (snapshot before == after, result repeated); format_outcome / interpret_as_qtype directly on "
                      "the first 4 distinct readings of every program x 8 (reading length, out_len) combinations x 3 forms, "
